@@ -348,6 +348,9 @@ func (e *Env) mysqlSpaces(thorough bool) []*Space {
 	})
 	myEOF(binResult, "RowEOF", 8)
 
+	// the OK packet of the database that ends the connection phase: the handler dispatches client
+	// packets as commands only after it (until then they are relayed as authentication data)
+	authOK := myRawPkt(2, []byte{0, 0, 0, 2, 0, 0, 0})
 	sess := func(steps func(in []byte) []step) func(in []byte) (string, error) {
 		return func(in []byte) (string, error) {
 			sqlparser.SetDefaultDialect(m.dialect)
@@ -358,22 +361,22 @@ func (e *Env) mysqlSpaces(thorough bool) []*Space {
 		return []step{{false, sh.buf}, {true, in}}
 	}))
 	cliCmd := e.dec("mysql.Handler.ProxyClientConnection[commands]", sess(func(in []byte) []step {
-		return []step{{false, sh.buf}, {true, hs.buf}, {true, in}}
+		return []step{{false, sh.buf}, {true, hs.buf}, {false, authOK}, {true, in}}
 	}))
 	cliExec := e.dec("mysql.Handler.ProxyClientConnection[after prepare]", sess(func(in []byte) []step {
-		return []step{{false, sh.buf}, {true, hs.buf}, {true, prepQ.buf}, {false, prepResp.buf}, {true, in}}
+		return []step{{false, sh.buf}, {true, hs.buf}, {false, authOK}, {true, prepQ.buf}, {false, prepResp.buf}, {true, in}}
 	}))
 	dbFirst := e.dec("mysql.Handler.ProxyDatabaseConnection[first packet]", sess(func(in []byte) []step {
 		return []step{{false, in}}
 	}))
 	dbText := e.dec("mysql.Handler.ProxyDatabaseConnection[query response]", sess(func(in []byte) []step {
-		return []step{{false, sh.buf}, {true, hs.buf}, {true, textQ.buf}, {false, in}}
+		return []step{{false, sh.buf}, {true, hs.buf}, {false, authOK}, {true, textQ.buf}, {false, in}}
 	}))
 	dbPrep := e.dec("mysql.Handler.ProxyDatabaseConnection[prepare response]", sess(func(in []byte) []step {
-		return []step{{false, sh.buf}, {true, hs.buf}, {true, prepQ.buf}, {false, in}}
+		return []step{{false, sh.buf}, {true, hs.buf}, {false, authOK}, {true, prepQ.buf}, {false, in}}
 	}))
 	dbBin := e.dec("mysql.Handler.ProxyDatabaseConnection[execute response]", sess(func(in []byte) []step {
-		return []step{{false, sh.buf}, {true, hs.buf}, {true, prepQ.buf}, {false, prepResp.buf}, {true, exec.buf}, {false, in}}
+		return []step{{false, sh.buf}, {true, hs.buf}, {false, authOK}, {true, prepQ.buf}, {false, prepResp.buf}, {true, exec.buf}, {false, in}}
 	}))
 	l = 3
 	if thorough {
@@ -413,5 +416,7 @@ func (e *Env) mysqlSpaces(thorough bool) []*Space {
 	}
 	out = append(out, e.fieldSpace("mysql", "mysql-payloads", []seedT{{"column definition payload", cds.Data[4:], cdf}}, true,
 		[]*Decoder{e.byName["mysql.ParseResultField"], e.byName["mysql.ParseResultField[mariadb extended type info]"]}))
+	// every mode x every length-prefixed field x every prefix width x declared value x truncation (modes.go)
+	out = append(out, e.mysqlModeSpaces(thorough)...)
 	return out
 }
